@@ -21,6 +21,7 @@ import (
 	"github.com/charmbracelet/log"
 
 	"github.com/flamego/flamego"
+	"github.com/flamego/flamego/inject"
 	"github.com/flamego/flamego/verifharness/core"
 )
 
@@ -239,7 +240,11 @@ func buildC05(s *c05Sched) *flamego.Flame {
 		logw = s.log
 	}
 	f := flamego.NewWithLogger(logw)
-	f.Map(&c05Svc{name: "svc"})
+	// the application scope has a parent of its own (services shared by several instances of one process): the
+	// handlers' interface-typed parameter is resolved there, two scopes out from the request
+	shared := inject.New()
+	shared.Map(&c05Svc{name: "svc"})
+	f.SetParent(shared)
 	f.Map(c05Opt{V: "app-default"})
 	f.Use(func(c flamego.Context) {
 		n := atomic.AddInt64(&s.inflight, 1)
